@@ -348,7 +348,7 @@ func ParseContracts(files map[string]string) (*Contracts, error) {
 					return nil, fail(fmt.Errorf("bad container clause"))
 				}
 				for _, w := range fields[2:] {
-					if w != "nonnil" && w != "open" {
+					if w != "nonnil" && w != "open" && w != "sendlocked" {
 						return nil, fail(fmt.Errorf("bad container invariant %q", w))
 					}
 				}
